@@ -213,7 +213,9 @@ def build_world(patched=True):
                 hw.cur_samples[p] = eng().new_input("dread", p, 32, 0, 1)
             else:
                 # declared before the loop: the firmware also samples it once in setup() (index 0)
+                # (index 0); an is_pressed() in the prologue reports that level on both sides
                 self._verif_initial = eng().new_input("dread", p, 32, 0, 1)
+                self._pressed = (self._verif_initial == 1)
         if hw.in_pass and p in hw.cur_samples:
             self._pressed = (hw.cur_samples[p] == 1)
     Btn.__init__ = Btn_init
@@ -383,4 +385,6 @@ def run_script(src: str, passes: int, patched=True, setup_done=None):
          "__setup_done": (lambda: setup_done(g, hw)) if setup_done else (lambda: None)}
     exec(code, g)
     eng().emit("pyheap", _py_live(g))
+    # buttons whose object is still bound to a script name at the end (a re-bound name leaves a dead object behind)
+    hw.devices.live_button_pins = {pin_number(b.pin) for b in hw.devices.buttons if any(v is b for v in g.values())}
     return hw
